@@ -192,6 +192,7 @@ func detail(v verdict) string {
 func progWorker(w *pool.W, arg json.RawMessage) {
 	var sh shardArg
 	json.Unmarshal(arg, &sh)
+	defer runner.Cleanup() // the template-mode scratch directory of this worker (re-created on demand)
 	b := bounds(sh.Tier, sh.Seed)
 	red := &reducer{cache: map[string]string{}}
 	cases := map[string]int64{}
@@ -458,8 +459,10 @@ func replay(c *ev.Check) {
 		c.Finish(1, 1, 1, "replay")
 		return
 	}
+	var whole map[string]any // keep every field of the artefact when it is written back
+	ev.LoadReplay(c.Replay, &whole)
 	fmt.Println(p.Source(cs.Template))
-	clause := ""
+	clause, det := "", ""
 	for i := 0; i < 5; i++ { // determinism before belief
 		v, err := check(p, cs.Template)
 		if err != nil {
@@ -467,14 +470,16 @@ func replay(c *ev.Check) {
 			break
 		}
 		if i == 0 {
-			fmt.Println(detail(v))
+			det = detail(v)
+			fmt.Println(det)
 			clause = v.Clause
 		} else if v.Clause != clause {
 			c.HarnessError("replay is not deterministic: %q then %q", clause, v.Clause)
 		}
 	}
 	if clause != "" {
-		c.Fail(key, clause, p.Size(), cs, "replayed")
+		c.Fail(key, clause, p.Size(), whole, det)
 	}
+	runner.Cleanup()
 	c.Finish(1, 1, 1, "replay")
 }
